@@ -32,6 +32,8 @@ pub enum CapsKind {
     /// the Windows list whose multifragment-update capability (type 0x1A) announces MaxRequestSize = 64 (what the SERVER can
     /// reassemble: it says nothing about the size of the updates the server sends)
     SmallMultifragment,
+    /// a demand-active whose capability list is empty (numberCapabilities = 0)
+    NoCapabilities,
 }
 
 /// how the server answers the final CredSSP round (pubKeyAuth echo)
@@ -143,6 +145,9 @@ pub struct ServerParams {
     /// the server closes the connection when the MCS connect-initial arrives (the security phase — TLS, CredSSP — is over,
     /// nothing of MCS is answered): what a server does that refuses what was delegated to it
     pub hang_up_after_security: bool,
+    /// password-less server: 0 = the EncryptedRandomSessionKey field is taken for the session key; 1 / 2 / 3 = the field is
+    /// unwrapped (RC4) with a key made of the first 8 bytes of the LM response + 8 zeros / 16 zeros / the server challenge + 8 zeros
+    pub passwordless_guess: u8,
     /// re-activation: the deactivate-all rides in ONE send-data indication behind another share PDU (1 = a Save Session
     /// Info data PDU, which this client does not parse; 2 = a Set Error Info PDU); 0 = alone in its frame
     pub deactivate_packed_behind: u8,
@@ -195,6 +200,7 @@ impl Default for ServerParams {
             sc_security_optional_lengths: false,
             licence_flags_hi: 0,
             hang_up_after_security: false,
+            passwordless_guess: 0,
             deactivate_packed_behind: 0,
             tls_record_cap: 0,
         }
@@ -601,6 +607,7 @@ impl RefServer {
     fn caps(&self) -> Vec<CapSet> {
         match self.p.caps {
             CapsKind::Minimal => share::minimal_caps(),
+            CapsKind::NoCapabilities => vec![],
             CapsKind::WindowsCapture | CapsKind::WithUnknown | CapsKind::WithZeroLenBody | CapsKind::InputWithoutScancodes | CapsKind::NoInputCapability | CapsKind::SmallMultifragment => {
                 let cap = share::windows_capture_demand_active();
                 let (_, _, mut caps, _) = share::parse_demand_active_body(&cap).expect("embedded capture");
@@ -829,9 +836,20 @@ impl RefServer {
                 };
                 self.client_pubkeyauth = pka.clone();
                 if self.p.passwordless {
-                    let field = match rn::parse_authenticate(&tok) {
-                        Ok(a) => a.enc_key,
+                    let (field, lm) = match rn::parse_authenticate(&tok) {
+                        Ok(a) => (a.enc_key, a.lm),
                         Err(e) => return self.fail(format!("NTLM AUTHENTICATE does not parse: {}", e)),
+                    };
+                    let field = if self.p.passwordless_guess > 0 && field.len() == 16 {
+                        let mut key = vec![0u8; 16];
+                        match self.p.passwordless_guess {
+                            1 if lm.len() >= 8 => key[..8].copy_from_slice(&lm[..8]),
+                            3 => key[..8].copy_from_slice(&self.p.ntlm.challenge),
+                            _ => {}
+                        }
+                        vref::crypto::Rc4::new(&key).apply(&field)
+                    } else {
+                        field
                     };
                     if field.len() != 16 {
                         return self.fail(format!("passwordless server: EncryptedRandomSessionKey of {} bytes", field.len()));
